@@ -72,7 +72,8 @@ def source_grep():
     return hits
 
 
-AUDIT_TEMPLATE = """import {module}
+AUDIT_TEMPLATE = """import Lean
+import {module}
 open Lean Elab Command in
 run_cmd do
   let env ← getEnv
@@ -287,9 +288,9 @@ def main():
                    (1 if exit_code == 1 and not new_viol else 0))
     for l in lines:
         print(l)
-    print("%s %s %s: %s in %.1fs (theorems %d, cases %d, comparisons %s, diffs %d)" % (
+    print("%s %s %s: %s in %.1fs (theorems %d, cases %d, monitor checks %d, correspondence diffs %d)" % (
         prop, tier, "seed=%d" % seed, "OK" if exit_code == 0 else "FAIL", ctx.elapsed(),
-        obligations, res.get("evaluations", 0), sum(res.get("comparisons", {}).values()) if res.get("comparisons") else 0, len(diffs)))
+        obligations, res.get("evaluations", 0), res.get("monitor_checks", 0), len(diffs)))
     return exit_code
 
 
